@@ -1,8 +1,12 @@
 """Client for the Lean line-protocol driver (`lake env lean --run Main.lean`)."""
 import os
+import sys
 import subprocess
 import tempfile
 from fractions import Fraction
+
+if hasattr(sys, "set_int_max_str_digits"):
+    sys.set_int_max_str_digits(0)      # exact rationals from the model (Newton steps in Q) can have thousands of digits
 
 ROOT = os.path.dirname(os.path.dirname(os.path.abspath(__file__)))
 LEAN_DIR = os.path.join(ROOT, "lean")
